@@ -25,17 +25,17 @@ func DoubleQuotesToBackTick(str string) (string, error) {
 		switch r {
 		case '\'':
 			{
-				buffer.WriteRune(r)
+				buffer.WriteByte(str[i])
 				i++
 				r = '0'
 				for ; i < len(str) && r != '\''; i++ {
 					r = rune(str[i])
-					buffer.WriteRune(r)
+					buffer.WriteByte(str[i])
 					if r == '\\' {
 						if i+1 == len(str) {
 							return "", fmt.Errorf("index out of range")
 						}
-						buffer.WriteRune(rune(str[i+1]))
+						buffer.WriteByte(str[i+1])
 						i++
 					}
 				}
@@ -43,12 +43,12 @@ func DoubleQuotesToBackTick(str string) (string, error) {
 			}
 		case '`':
 			{
-				buffer.WriteRune(r)
+				buffer.WriteByte(str[i])
 				i++
 				r = '0'
 				for ; i < len(str) && r != '`'; i++ {
 					r = rune(str[i])
-					buffer.WriteRune(r)
+					buffer.WriteByte(str[i])
 				}
 				i--
 			}
@@ -69,7 +69,7 @@ func DoubleQuotesToBackTick(str string) (string, error) {
 						}
 						next := str[i+1]
 						if next == '"' {
-							buffer.WriteRune(rune(next))
+							buffer.WriteByte(next)
 							i++
 							continue
 						}
@@ -78,14 +78,14 @@ func DoubleQuotesToBackTick(str string) (string, error) {
 						// a backtick inside the identifier is written doubled
 						buffer.WriteRune('`')
 					}
-					buffer.WriteRune(r)
+					buffer.WriteByte(str[i])
 				}
 				i--
 				continue
 			}
 		default:
 			{
-				buffer.WriteRune(r)
+				buffer.WriteByte(str[i])
 			}
 		}
 	}
